@@ -36,7 +36,13 @@ TRUSTED = [
     "asyncio.Future completion is observed as done()/exception() after each event",
     "messages the proxy injects carry no appended acks of their own (Message.take() clears them); session/region lookup, "
     "addon dispatch and message logging around the core of handle_proxied_packet are not modelled",
-    "packet IDs are unbounded integers in the model (no 32-bit wrap-around, as in InjectionTracker)",
+    "packet IDs are unbounded integers in the model (no 32-bit wrap-around, as in InjectionTracker); when the real serializer "
+    "refuses an out-of-range ID (only reachable with acks for IDs never on the wire) the trace is compared up to that event",
+    "model follows the repaired code (/repo 1939bda, _rewrite_packet_ack installs the filtered block list before the emptiness "
+    "test); the pre-fix failing history is corpus/C05/01-* (the oracle flags it as class injected-ack-leaked if the defect returns). "
+    "'Only IDs the endpoint sent itself' is proved under the hypothesis that the peer acknowledges wire IDs that really "
+    "travelled towards it; above-evicted hypotheses are inherited from C04; the retry budget (9 retransmissions, then one "
+    "timeout) is proved as a trace theorem for continuations in which nobody acknowledges the packet",
 ]
 
 VIEWER = ("127.0.0.1", 1)
